@@ -53,7 +53,7 @@ def run(prop, tier, seed, workdir, only=None, engines=("E1", "E2"), nproc=16, re
                 jobs.append({"ver": v, "tables": tables[v], "harnesses": names, "seed": seed,
                              "export": "all" if tier == "thorough" else "sample",
                              "repo": repo or config.REPO,
-                             "max_seconds": 3000 if tier == "thorough" else 300, "id": "%s-%d" % (v, i)})
+                             "max_seconds": 3000 if tier == "thorough" else 150, "id": "%s-%d" % (v, i)})
     os.makedirs(workdir, exist_ok=True)
     env = dict(os.environ)
     env["PYTHONPATH"] = config.VERIF + os.pathsep + (repo or config.REPO)
